@@ -103,6 +103,11 @@ class PhaseMonitor(Monitor):
     def on_op(self, ctx, state, op):
         name = opname(op)
         ph = PHASE[name]
+        if name == 'show_or_muck_hole_cards' and state.street_index is None:
+            # a voluntary show outside the showdown (documented): it belongs
+            # to no phase and must not disturb the one that is active
+            ctx.counters['voluntary_shows_outside_showdown'] += 1
+            return
         if ph not in NEXT[self.phase]:
             ctx.violate(f'phase order: {name} ({ph}) after phase '
                         f'{self.phase} at op #{ctx.nevents}')
@@ -179,6 +184,14 @@ class PhaseMonitor(Monitor):
             ctx.counters['terminal_states_checked'] += 1
 
     def on_end(self, ctx, state):
+        if 'query_exc' in ctx.data:
+            exc = ctx.data['query_exc']
+            tb = ''.join(traceback.format_exception_only(
+                type(exc), exc)).strip()
+            ctx.violate(f'a yes/no query or read-only accessor raised {tb} '
+                        f'[{hist.exc_site(exc)}] while the client was '
+                        f'choosing its next operation (after op '
+                        f'#{ctx.nevents})', exc=exc)
         if 'too_long' in ctx.data:
             ctx.violate(f'hand exceeded the operation bound: '
                         f'{ctx.data["too_long"]} client operations')
@@ -224,6 +237,8 @@ def cfg_filter(cfg, rng):
 
 
 def pol_tweak(pol, cfg, rng):
+    if rng.random() < 0.15:
+        pol['voluntary_show'] = 0.3
     if rng.random() < 0.12:
         # cash games with manual showing: partial and empty shows
         pol['partial_show'] = True
